@@ -145,6 +145,169 @@ theorem shed_within_bounds (I : Island) (x : List ℚ) (hx : Feasible (build I) 
   have := inBox_zero_get (x.take I.buses.length) (I.buses.map (·.load)) (by rw [htl]; exact hb) j hjx (by simp; exact hj)
   simpa using this
 
+/-! ### The island problem always has a feasible point: shedding everything -/
+
+theorem dot_app (a1 a2 x1 x2 : List ℚ) (h : a1.length = x1.length) :
+    dot (a1 ++ a2) (x1 ++ x2) = dot a1 x1 + dot a2 x2 := by
+  induction a1 generalizing x1 with
+  | nil => cases x1 with
+    | nil => simp [dot]
+    | cons _ _ => simp at h
+  | cons a as ih =>
+    cases x1 with
+    | nil => simp at h
+    | cons x xs => simp only [List.cons_append, dot]; rw [ih xs (by simpa using h)]; ring
+
+theorem dot_zeros_right (a : List ℚ) (n : ℕ) : dot a (zeros n) = 0 := by
+  induction a generalizing n with
+  | nil => simp [dot]
+  | cons x xs ih =>
+    cases n with
+    | zero => simp [zeros, dot]
+    | succ n =>
+      simp only [zeros, List.replicate, dot]
+      have := ih n
+      simp only [zeros] at this
+      rw [this]; ring
+
+/-- `unitRow` on an index range shifted by `k` (induction helper) -/
+theorem dot_unit_map (L : List ℕ) (xs : List ℚ) (j : ℕ) (f : ℕ → ℚ) (hL : L.Nodup) (hlen : L.length = xs.length)
+    (hx : ∀ i (hi : i < L.length), xs[i]'(by rw [← hlen]; exact hi) = f L[i]) :
+    dot (L.map (fun k => if k = j then (1 : ℚ) else 0)) xs = if j ∈ L then f j else 0 := by
+  induction L generalizing xs with
+  | nil => simp [dot]
+  | cons a as ih =>
+    cases xs with
+    | nil => simp at hlen
+    | cons x xs =>
+      simp only [List.map_cons, dot]
+      have hnd := List.nodup_cons.mp hL
+      have hx0 : x = f a := by
+        have := hx 0 (by simp)
+        simp only [List.getElem_cons_zero] at this; exact this
+      have ih' := ih xs hnd.2 (by simpa using hlen) (fun i hi => by
+        have := hx (i + 1) (by simpa using hi)
+        simp only [List.getElem_cons_succ] at this; exact this)
+      rw [ih']
+      by_cases haj : a = j
+      · subst haj
+        simp [hnd.1, hx0]
+      · have : j ∈ a :: as ↔ j ∈ as := by
+          simp only [List.mem_cons]
+          constructor
+          · rintro (h | h)
+            · exact absurd h.symm haj
+            · exact h
+          · exact Or.inr
+        simp only [haj, if_false, this]
+        ring
+
+theorem dot_unitRow (xs : List ℚ) (j : ℕ) (hj : j < xs.length) : dot (unitRow xs.length j) xs = xs[j] := by
+  unfold unitRow
+  have := dot_unit_map (List.range xs.length) xs j (fun k => xs.getD k 0) List.nodup_range (by simp)
+    (fun i hi => by simp [List.getD_eq_getElem?_getD] ; rw [List.getElem?_eq_getElem (by simpa using hi)]; simp)
+  rw [this]
+  simp [hj, List.getD_eq_getElem?_getD, List.getElem?_eq_getElem hj]
+
+theorem inBox_append (xs xr ls lr us ur : List ℚ) (h1 : InBox xs ls us) (h2 : InBox xr lr ur) : InBox (xs ++ xr) (ls ++ lr) (us ++ ur) := by
+  induction xs generalizing ls us with
+  | nil =>
+    cases ls with
+    | nil => cases us with
+      | nil => simpa using h2
+      | cons _ _ => simp [InBox] at h1
+    | cons _ _ => simp [InBox] at h1
+  | cons x xs ih =>
+    cases ls with
+    | nil => simp [InBox] at h1
+    | cons l ls =>
+      cases us with
+      | nil => simp [InBox] at h1
+      | cons u us =>
+        simp only [List.cons_append, InBox] at h1 ⊢
+        exact ⟨h1.1, h1.2.1, ih ls us h1.2.2⟩
+
+theorem inBox_map {α : Type} (L : List α) (x l u : α → ℚ) (h : ∀ a ∈ L, l a ≤ x a ∧ x a ≤ u a) : InBox (L.map x) (L.map l) (L.map u) := by
+  induction L with
+  | nil => simp [InBox]
+  | cons a as ih =>
+    simp only [List.map_cons, InBox]
+    exact ⟨(h a List.mem_cons_self).1, (h a List.mem_cons_self).2, ih (fun b hb => h b (List.mem_cons_of_mem _ hb))⟩
+
+theorem zeros_eq_map {α : Type} (L : List α) : zeros L.length = L.map (fun _ => (0 : ℚ)) := by
+  induction L with
+  | nil => rfl
+  | cons a as ih => simp only [List.length_cons, zeros, List.replicate, List.map_cons]; congr 1
+
+theorem eqRows_map (L : List ℕ) (f : ℕ → List ℚ) (g : ℕ → ℚ) (z : List ℚ) (h : ∀ j ∈ L, dot (f j) z = g j) : EqRows (L.map f) (L.map g) z := by
+  induction L with
+  | nil => simp [EqRows]
+  | cons a as ih =>
+    simp only [List.map_cons, EqRows]
+    exact ⟨h a List.mem_cons_self, ih (fun b hb => h b (List.mem_cons_of_mem _ hb))⟩
+
+/-- **The shedding problem of every island is feasible**: shedding the whole demand, with no flow and no generation,
+satisfies every balance row and every bound (non-negative demands, generation limits, line limits and threshold). -/
+theorem build_always_feasible (I : Island) (hload : ∀ b ∈ I.buses, 0 ≤ b.load) (hgen : ∀ b ∈ I.buses, 0 ≤ b.genMax)
+    (hcap : ∀ l ∈ I.lines, 0 ≤ l.cap) (ha : 0 ≤ I.alpha) : Feasible (build I) (shedAll I) := by
+  have hb : I.buses.map (·.load) = (List.range I.buses.length).map (fun j => (I.buses.map (·.load)).getD j 0) := by
+    apply List.ext_getElem
+    · simp
+    · intro i h1 h2
+      simp only [List.getElem_map, List.getElem_range, List.getD_eq_getElem?_getD]
+      rw [List.getElem?_eq_getElem (by simpa using h1)]; simp
+  refine ⟨?_, ?_, ?_, ?_, ?_, ?_, ?_, ?_⟩
+  · intro r hr
+    simp only [build, List.mem_map, List.mem_range] at hr
+    obtain ⟨j, _, rfl⟩ := hr
+    show _ = I.buses.length + I.lines.length + I.buses.length + 1
+    simp [unitRow]; omega
+  · simp [build, zeros]; omega
+  · simp [build, zeros]; omega
+  · simp [build, zeros]; omega
+  · simp [build, shedAll, zeros]; omega
+  · simp [build]
+  · -- balance rows
+    show EqRows (build I).A (build I).b (shedAll I)
+    have hA : (build I).A = (List.range I.buses.length).map (fun j =>
+      unitRow I.buses.length j ++ I.lines.map (fun l => if l.f = j then (-1 : ℚ) else if l.t = j then 1 else 0) ++ unitRow I.buses.length j ++ [1]) := rfl
+    have hbb : (build I).b = I.buses.map (·.load) := rfl
+    rw [hA, hbb, hb]
+    apply eqRows_map
+    intro j hj
+    have hj' : j < I.buses.length := List.mem_range.mp hj
+    unfold shedAll
+    rw [dot_app _ _ _ _ (by simp [unitRow, zeros]), dot_app _ _ _ _ (by simp [unitRow, zeros]),
+        dot_app _ _ _ _ (by simp [unitRow])]
+    rw [dot_zeros_right, dot_zeros_right]
+    have hu : dot (unitRow I.buses.length j) (I.buses.map (·.load)) = (I.buses.map (·.load))[j]'(by simpa using hj') := by
+      have := dot_unitRow (I.buses.map (·.load)) j (by simpa using hj')
+      simpa using this
+    rw [hu]
+    simp only [dot, List.getD_eq_getElem?_getD]
+    rw [List.getElem?_eq_getElem (by simpa using hj')]
+    simp
+  · -- bounds
+    show InBox (shedAll I) (build I).lo (build I).hi
+    simp only [build, shedAll]
+    apply inBox_append
+    · apply inBox_append
+      · apply inBox_append
+        · rw [zeros_eq_map]
+          exact inBox_map I.buses _ _ _ (fun b hb' => ⟨hload b hb', le_refl _⟩)
+        · rw [zeros_eq_map]
+          exact inBox_map I.lines _ _ _ (fun l hl => ⟨by have := hcap l hl; linarith, hcap l hl⟩)
+      · rw [zeros_eq_map]
+        exact inBox_map I.buses _ _ _ (fun b hb' => ⟨le_refl _, hgen b hb'⟩)
+    · simp only [InBox]; exact ⟨by linarith, ha, trivial⟩
+
+/-- hence a certified solution never costs more than shedding everything (plus the gap) -/
+theorem optimum_le_shed_all (I : Island) (hload : ∀ b ∈ I.buses, 0 ≤ b.load) (hgen : ∀ b ∈ I.buses, 0 ≤ b.genMax)
+    (hcap : ∀ l ∈ I.lines, 0 ≤ l.cap) (ha : 0 ≤ I.alpha) (x y : List ℚ) (gap tol : ℚ)
+    (h : checkCert (build I) x y gap tol = true) : cost (build I) x ≤ cost (build I) (shedAll I) + gap :=
+  checkCert_sound _ x y gap tol h _ (build_always_feasible I hload hgen hcap ha)
+
+
 /-- Non-vacuity: a two-bus island fed at bus 0 with a line limit of 1/4 and demand 2/5 at bus 1:
 shedding 3/20 at cost 3 per MW is certified optimal by the multipliers (0, 3). -/
 example : checkCert (build { buses := [⟨0, 5, 100000000⟩, ⟨2/5, 3, 0⟩], lines := [⟨0, 1, 1/4⟩], alpha := 0 })
